@@ -1,2 +1,3 @@
 pub mod pipeline;
 pub mod queue;
+pub mod crash;
